@@ -89,17 +89,17 @@ type sioInc struct {
 }
 
 type sioHarness struct {
-	ctx    context.Context
-	cancel context.CancelFunc
-	c      *sio.Crew
-	cp     *crewh.Couplings
-	incs   []*sioInc
-	live   map[string]*sioInc
-	bad    string
-	store  shadowStore
-	mu     sync.Mutex
-	reuse  int
-	window int
+	ctx      context.Context
+	cancel   context.CancelFunc
+	c        *sio.Crew
+	cp       *crewh.Couplings
+	incs     []*sioInc
+	live     map[string]*sioInc
+	bad      string
+	store    shadowStore
+	mu       sync.Mutex
+	reuse    int
+	window   int
 	restarts int
 }
 
